@@ -11,8 +11,11 @@
                                     canChangeMetricByName, CanEditMetric, skips
 
   What is an INPUT of the model rather than modelled (DESIGN §6 C30): base64/JSON decoding of the three segments
-  (a token that does not decode is the input `malformed`), and Ed25519 — `Token.sigOk` is the list of configured
-  key ids under whose public key the signature verifies (computed by the harness with crypto/ed25519).
+  (a token that does not decode is the input `malformed`), and Ed25519 — `Token.sigValid` is the list of public keys
+  (key BYTES, configured or not) under which the signature verifies, i.e. the relation `valid : Key → Token → Bool`
+  as data, computed by the harness with crypto/ed25519 from its own key pairs. sha256 (the key fingerprint = key id)
+  is a parameter `fp` of `parseKeys`. The key table `kid ↦ key bytes` (JWTHelper.publicKeys, built by
+  vkuth.ParseVkuthKeys) IS modelled: the code verifies under the key the table returns for the token's kid.
 
   Strings are byte lists (`strings.HasPrefix` is `List.isPrefixOf`). Times are milliseconds since the epoch;
   golang-jwt's NumericDate keeps whole seconds (`jwt.TimePrecision = time.Second`), modelled by `truncSec`.
@@ -42,12 +45,15 @@ inductive HV where
   | str (s : Str)
 deriving DecidableEq, Repr
 
+/-- Ed25519 public key bytes -/
+abbrev Key := Str
+
 structure Token where
   alg : HV
   kind : HV
   kid : HV
-  /-- configured key ids under whose key the signature segment is a valid Ed25519 signature of `header.claims` -/
-  sigOk : List Str
+  /-- the public keys (bytes) under which the signature segment is a valid Ed25519 signature of `header.claims` -/
+  sigValid : List Key
   iss : Str            -- "" when absent
   user : Str           -- "" when absent
   exp : Option Nat     -- ms
@@ -59,7 +65,7 @@ deriving DecidableEq, Repr
 
 structure Cfg where
   app : Str
-  keys : List Str        -- ids of the configured public keys
+  keys : List (Str × Key)  -- JWTHelper.publicKeys: key id ↦ public key bytes (a Go map: at most one entry per id)
   prot : List Str        -- protected metric prefixes
   localMode : Bool
   insecure : Bool
@@ -95,9 +101,24 @@ def kindOk : HV → Bool
   | .str s => s == C30.kindToken
   | _ => false
 
-/-- Keyfunc, second half: `kid` is a string naming a configured key -/
-def kidKey (cfg : Cfg) : HV → Option Str
-  | .str k => if cfg.keys.contains k then some k else none
+/-- `m[id]` -/
+def tableGet (m : List (Str × Key)) (id : Str) : Option Key :=
+  match m with
+  | [] => none
+  | e :: r => if e.1 = id then some e.2 else tableGet r id
+
+/-- `m[id] = k` -/
+def tableSet (m : List (Str × Key)) (id : Str) (k : Key) : List (Str × Key) :=
+  (id, k) :: m.filter (fun e => e.1 != id)
+
+/-- vkuth.ParseVkuthKeys after base64 decoding: every listed key is stored under its fingerprint `fp k`
+    (`vkuthFingerprint`, hex of the first 8 bytes of sha256 — a parameter). Each entry owns its key bytes. -/
+def parseKeys (fp : Key → Str) (ks : List Key) : List (Str × Key) :=
+  ks.foldl (fun m k => tableSet m (fp k) k) []
+
+/-- Keyfunc, second half: `kid` is a string naming a configured key; the result is THAT key's bytes -/
+def kidKey (cfg : Cfg) : HV → Option Key
+  | .str k => tableGet cfg.keys k
   | _ => none
 
 /-- NumericDate keeps whole seconds -/
@@ -131,8 +152,9 @@ def claimsVerdict (now : Nat) (t : Token) : Verdict :=
   | none => .panic       -- VerifyExpiresAt(…, required) is false and the message dereferences c.ExpiresAt
   | some exp => if claimsMask now exp t = 0 then .accept else .err (claimsMask now exp t)
 
-def sigVerdict (now : Nat) (t : Token) (k : Str) : Verdict :=
-  if t.sigOk.contains k then claimsVerdict now t else .err C30.errSignatureInvalid
+/-- `token.Method.Verify(signingString, signature, key)` with the key returned by the Keyfunc -/
+def sigVerdict (now : Nat) (t : Token) (k : Key) : Verdict :=
+  if t.sigValid.contains k then claimsVerdict now t else .err C30.errSignatureInvalid
 
 def keyVerdict (cfg : Cfg) (now : Nat) (t : Token) : Verdict :=
   if kindOk t.kind then
